@@ -111,6 +111,7 @@ class Report:
         counted = 0
         by_backend = {}
         solver_ms = 0.0
+        bounded_violations = [b["violation"] for b in self.bounded if b.get("violation") and pid in b.get("props", [])]
         for ob in self.obligations:
             st = ob["status"]
             solver_ms += ob.get("ms", 0.0)
@@ -140,6 +141,7 @@ class Report:
                 violations.append(ob)
             else:
                 undecided.append(ob)
+        violations = violations + bounded_violations  # found by a bounded stand-in: reported, never counted as obligations
         # replay violations
         RD = os.environ.get("PYVC_REPLAY_DIR", os.path.join(VERIF, "replays"))
         os.makedirs(os.path.join(RD, pid), exist_ok=True)
